@@ -45,3 +45,42 @@ def scan_bound(chk, P, fname, unit, rule="R-SCANBOUND"):
                         chk.inst(rule, f, "%s-before-%s@%s" % (q, ends[0], c.get("fn")), ok,
                                  "use of %s (found by strchr from %s) in %s(...) must be dominated by %s != NULL and %s < %s (the end of the current item)" % (q, start, c.get("fn"), q, q, ends[0]), loc=f.loc(c))
     return n_inst
+
+
+def free_then_reset(chk, P, fname, unit, free_funcs, rule="R-FREERESET", min_inst=1):
+    """every call F(x->field) of a releasing function on a *field of a surviving object* is followed, on every path to
+    the function exit, by `x->field = NULL` for the SAME field (a stale head would be walked and freed again)."""
+    import paths
+    f = P.need_func(fname, unit)
+    n = 0
+    for c in f.calls(free_funcs):
+        a0 = strip(args(c)[0]) if args(c) else None
+        if a0 is None or a0["k"] != "Member":
+            continue
+        key = lv(a0)
+        if key is None or c["id"] not in f.elem_block:
+            continue
+        n += 1
+        b0, i0 = f.elem_block[c["id"]]
+        # blocks that reset the same lvalue
+        reset = set()
+        same_block_after = False
+        for b, blk in f.blocks.items():
+            for j, e in enumerate(blk["e"]):
+                x = f.nodes[e]
+                a = assigned(x)
+                if a and a[1] == "=" and lv(a[0]) == key and a[2] is not None and cval(strip(a[2])) == 0:
+                    if b == b0 and j > i0:
+                        same_block_after = True
+                    elif b != b0:
+                        reset.add(b)
+        ok = same_block_after
+        w = None
+        if not ok:
+            w = paths.reach(f, b0, lambda b: b == f.exit, avoid=reset)
+            ok = w is None
+        chk.inst(rule, f, "reset:%s" % key, ok,
+                 "%s(%s) must be followed on every path by `%s = NULL`%s" % (c.get("fn"), key, key, "" if ok else " -- the exit is reachable without it"), loc=f.loc(c))
+    if n < min_inst:
+        chk.broke("%s: only %d release-of-field sites in %s (expected >= %d)" % (rule, n, fname, min_inst))
+    return n
